@@ -71,3 +71,34 @@ func storedInBlocks(a *ssa.Alloc, blocks map[*ssa.BasicBlock]bool) bool {
 	}
 	return false
 }
+
+// mapIsPrivate: the freshly made map is only used by map instructions of this function (update, lookup, range,
+// len, delete) - it is never passed to a call, stored, captured, returned or merged into another value.
+func mapIsPrivate(m *ssa.MakeMap) bool {
+	refs := m.Referrers()
+	if refs == nil {
+		return false
+	}
+	for _, r := range *refs {
+		switch x := r.(type) {
+		case *ssa.DebugRef:
+		case *ssa.MapUpdate:
+			if x.Map != m || x.Key == ssa.Value(m) || x.Value == ssa.Value(m) {
+				return false
+			}
+		case *ssa.Lookup:
+			if x.X != m {
+				return false
+			}
+		case *ssa.Range:
+		case *ssa.Call:
+			b, ok := x.Call.Value.(*ssa.Builtin)
+			if !ok || x.Call.IsInvoke() || (b.Name() != "len" && b.Name() != "delete") {
+				return false
+			}
+		default:
+			return false
+		}
+	}
+	return true
+}
